@@ -49,7 +49,19 @@ pub fn ident(v: &Value) -> Identifier {
 }
 
 pub fn err_json(e: &IggyError) -> Value {
-    json!({"r": "err", "code": e.as_code(), "name": e.as_string()})
+    // the HTTP client wraps the server's error (id, code) in a generic error: unwrap it so both transports read alike
+    match e {
+        IggyError::HttpResponseError(status, reason) => {
+            if let Ok(v) = serde_json::from_str::<Value>(reason) {
+                if let (Some(id), Some(code)) = (v.get("id").and_then(|x| x.as_u64()), v.get("code").and_then(|x| x.as_str())) {
+                    return json!({"r": "err", "code": id, "name": code, "http": status});
+                }
+            }
+            json!({"r": "err", "code": e.as_code(), "name": e.as_string(), "http": status, "body": reason})
+        }
+        IggyError::ResourceNotFound(_) => json!({"r": "err", "code": e.as_code(), "name": "resource_not_found"}),
+        _ => json!({"r": "err", "code": e.as_code(), "name": e.as_string()}),
+    }
 }
 
 pub fn payload_for(id: u64, len: usize) -> Vec<u8> {
@@ -117,12 +129,13 @@ pub struct Srv {
     pub config: Arc<SystemConfig>,
     pub shared: SharedSystem,
     pub addr: std::net::SocketAddr,
+    pub http_addr: std::net::SocketAddr,
     pub clients: HashMap<String, IggyClient>,
     pub clock: u64,
     pub tokens: HashMap<String, String>,
 }
 
-async fn start_system(config: Arc<SystemConfig>) -> Result<(SharedSystem, std::net::SocketAddr), IggyError> {
+async fn start_system(config: Arc<SystemConfig>) -> Result<(SharedSystem, std::net::SocketAddr, std::net::SocketAddr), IggyError> {
     // a real restart is a new process: process-global counters start over
     server::streaming::systems::streams::verif_reset_stream_id_counter();
     let mut system = System::new(config, DataMaintenanceConfig::default(), PersonalAccessTokenConfig::default());
@@ -131,14 +144,20 @@ async fn start_system(config: Arc<SystemConfig>) -> Result<(SharedSystem, std::n
     let mut tc = TcpConfig::default();
     tc.address = "127.0.0.1:0".to_string();
     let addr = server::tcp::tcp_server::start(tc, shared.clone()).await;
-    Ok((shared, addr))
+    // the HTTP API of the same system (its handlers are separate code); the harness clock is pinned in the past, so the
+    // access tokens get a lifetime that reaches beyond the real date
+    let mut hc = server::configs::http::HttpConfig::default();
+    hc.address = "127.0.0.1:0".to_string();
+    hc.jwt.access_token_expiry = IggyExpiry::ExpireDuration(IggyDuration::from_str("36500days").unwrap());
+    let http_addr = server::http::http_server::start(hc, shared.clone()).await;
+    Ok((shared, addr, http_addr))
 }
 
 impl Srv {
     pub async fn start(dir: &Path, cfg: &Value) -> Result<Srv, IggyError> {
         let config = build_config(dir, cfg);
-        let (shared, addr) = start_system(config.clone()).await?;
-        Ok(Srv { dir: dir.to_path_buf(), cfg: cfg.clone(), config, shared, addr, clients: HashMap::new(), clock: T0, tokens: HashMap::new() })
+        let (shared, addr, http_addr) = start_system(config.clone()).await?;
+        Ok(Srv { dir: dir.to_path_buf(), cfg: cfg.clone(), config, shared, addr, http_addr, clients: HashMap::new(), clock: T0, tokens: HashMap::new() })
     }
 
     pub async fn restart(&mut self, graceful: bool, new_cfg: Option<&Value>) -> Result<(), IggyError> {
@@ -156,17 +175,23 @@ impl Srv {
             self.cfg = merged;
             self.config = build_config(&self.dir, &self.cfg);
         }
-        let (shared, addr) = start_system(self.config.clone()).await?;
+        let (shared, addr, http_addr) = start_system(self.config.clone()).await?;
         self.shared = shared;
         self.addr = addr;
+        self.http_addr = http_addr;
         Ok(())
     }
 
     async fn client(&mut self, name: &str) -> &IggyClient {
         if !self.clients.contains_key(name) {
-            let c = IggyClient::builder().with_tcp().with_server_address(self.addr.to_string()).build().unwrap();
+            // clients whose name starts with "http" talk to the HTTP API, all others to the binary TCP protocol
+            let c = if name.starts_with("http") {
+                IggyClient::builder().with_http().with_api_url(format!("http://{}", self.http_addr)).build().unwrap()
+            } else {
+                IggyClient::builder().with_tcp().with_server_address(self.addr.to_string()).build().unwrap()
+            };
             c.connect().await.unwrap();
-            if name == "root" {
+            if name == "root" || name == "httproot" {
                 c.login_user("iggy", "iggy").await.unwrap();
             }
             self.clients.insert(name.to_string(), c);
@@ -282,9 +307,10 @@ impl Srv {
                     }
                 }
                 match start_system(self.config.clone()).await {
-                    Ok((shared, addr)) => {
+                    Ok((shared, addr, http_addr)) => {
                         self.shared = shared;
                         self.addr = addr;
+                        self.http_addr = http_addr;
                         json!({"r": "ok", "applied": applied})
                     }
                     Err(e) => {
